@@ -253,6 +253,10 @@ func (x *Explorer) intrinsic(fr *Frame, st *State, ins *ssa.Call, callee *ssa.Fu
 			}
 			isQuo := name == "Dec.Quo" || name == "Dec.QuoExact"
 			switch {
+			case isMul && a.L.IsConst():
+				r = &DecV{L: scaleLin(b.L, a.L.C), NonNeg: a.L.C.Sign() >= 0 && b.NonNeg, Pos: a.L.C.Sign() > 0 && b.Pos}
+			case isMul && b.L.IsConst():
+				r = &DecV{L: scaleLin(a.L, b.L.C), NonNeg: b.L.C.Sign() >= 0 && a.NonNeg, Pos: b.L.C.Sign() > 0 && a.Pos}
 			case isMul && a.Pow10 != "":
 				r = scale(b, a.Pow10, false)
 			case isMul && b.Pow10 != "":
@@ -290,8 +294,20 @@ func (x *Explorer) intrinsic(fr *Frame, st *State, ins *ssa.Call, callee *ssa.Fu
 			}
 			return &BoolV{F: "Eq0(" + regLin(d.L) + ")"}, true
 		case "Dec.IsPositive":
+			if d := asDec(st, args[0]); d.L.IsConst() {
+				if d.L.C.Sign() > 0 {
+					return kTrue, true
+				}
+				return kFalse, true
+			}
 			return &BoolV{F: "Gt0(" + regLin(asDec(st, args[0]).L) + ")"}, true
 		case "Dec.IsNegative":
+			if d := asDec(st, args[0]); d.L.IsConst() {
+				if d.L.C.Sign() < 0 {
+					return kTrue, true
+				}
+				return kFalse, true
+			}
 			return &BoolV{F: "Lt0(" + regLin(asDec(st, args[0]).L) + ")"}, true
 		case "Dec.IsFinite":
 			return kTrue, true
